@@ -331,6 +331,18 @@ Section StepMonitors.
     | DPhase _ _ _, None => is_nil evs
     | _, _ => true
     end.
+  (** C11 for the same-cluster ObjectSetPhase controller: a namespaced ObjectSetPhase never has a member request
+      outside its namespace or on a cluster-scoped kind. *)
+  Definition m_nsbound : bool :=
+    match ds_step o, ds_pre_phase o with
+    | DPhase _ _ _, Some p =>
+        negb (oi_kind (op_id p) =? KObjectSetPhase) ||
+        forallb (fun e => match e with
+                          | SMember x => (k_ns (ev_key x) =? oi_ns (op_id p)) &&
+                                         match gk_scope (k_gk (ev_key x)) with Some true => true | _ => false end
+                          | _ => true end) evs
+    | _, _ => true
+    end.
 End StepMonitors.
 
 Definition all_steps (m : dobs -> bool) (c : drun) : bool := forallb m (dr_steps c).
@@ -414,7 +426,7 @@ Definition m_final (c : drun) : bool :=
             (delegated s)) (dr_sets' c).
 
 Definition monitor_run (c : drun) : bool :=
-  all_steps m_carries c && all_steps m_relay c && all_steps m_gate c && all_steps m_teardown c && all_steps m_class c && m_final c.
+  all_steps m_carries c && all_steps m_relay c && all_steps m_gate c && all_steps m_teardown c && all_steps m_class c && (dr_annot c || all_steps m_nsbound c) && m_final c.
 
 (** The clause the implementation violates (known finding): kept apart from the rest of the monitor. *)
 Definition monitor_own (c : drun) : bool := all_steps m_own c.
@@ -433,7 +445,7 @@ Definition judge_parts (c : tcase) : list bool :=
   let d := tc_d c in
   let '(t1, t2, t3) := m_twin_parts c in
   [agree d; match tc_l c with Some l => agree l | None => true end;
-   all_steps m_carries d; all_steps m_relay d; all_steps m_gate d; all_steps m_teardown d; all_steps m_class d; m_final d;
+   all_steps m_carries d; all_steps m_relay d; all_steps m_gate d; all_steps m_teardown d; all_steps m_class d && (dr_annot d || all_steps m_nsbound d); m_final d;
    t1; t2; t3; monitor_own d].
 
 (** * The monitors accept the model (the parts that do not depend on a whole run) *)
